@@ -64,12 +64,24 @@ func (d *DatasourceExecuting) Run(ctx ExecutionContext, produce ProduceFn, metaS
 		for i, columnIndex := range indicesToRead {
 			str := row[columnIndex]
 			if str == "" {
-				values[i] = octosql.NewNull()
-				continue
+				if octosql.Null.Is(d.fields[i].Type) == octosql.TypeRelationIs {
+					values[i] = octosql.NewNull()
+					continue
+				}
+				if octosql.String.Is(d.fields[i].Type) == octosql.TypeRelationIs {
+					values[i] = octosql.NewString(str)
+					continue
+				}
+				return fmt.Errorf("empty value in column '%s', whose type '%s' (inferred from the first rows of the file) is not nullable", d.fields[i].Name, d.fields[i].Type)
 			}
 
+			// The schema has been inferred using strconv, which accepts more spellings than fastfloat (i.e. +3, .5, 5., 1_000),
+			// so that is what we fall back to.
 			if octosql.Int.Is(d.fields[i].Type) == octosql.TypeRelationIs {
 				integer, err := fastfloat.ParseInt64(str)
+				if err != nil {
+					integer, err = strconv.ParseInt(str, 10, 64)
+				}
 				if err == nil {
 					values[i] = octosql.NewInt(integer)
 					continue
@@ -78,6 +90,9 @@ func (d *DatasourceExecuting) Run(ctx ExecutionContext, produce ProduceFn, metaS
 
 			if octosql.Float.Is(d.fields[i].Type) == octosql.TypeRelationIs {
 				float, err := fastfloat.Parse(str)
+				if err != nil {
+					float, err = strconv.ParseFloat(str, 64)
+				}
 				if err == nil {
 					values[i] = octosql.NewFloat(float)
 					continue
@@ -100,6 +115,9 @@ func (d *DatasourceExecuting) Run(ctx ExecutionContext, produce ProduceFn, metaS
 				}
 			}
 
+			if octosql.String.Is(d.fields[i].Type) != octosql.TypeRelationIs {
+				return fmt.Errorf("value '%s' in column '%s' doesn't match its type '%s', inferred from the first rows of the file", str, d.fields[i].Name, d.fields[i].Type)
+			}
 			values[i] = octosql.NewString(str)
 		}
 
